@@ -432,3 +432,5 @@ CLAIMS["C13"]["text"] += (" Histories include other components' use of the peers
 CLAIMS["C13"]["note"] += (" A frozen case is recognised from outside the bubble by goroutine states (TestWatcherSelfCheck guards the runtime dump format; if that broke, a freeze would end as an inconclusive hang, not a pass). The harness never waits for virtual time under a lock of identify or the peerstore, so a freeze is a stall of the code under test.")
 
 CLAIMS["C20"]["text"] += (" The counter's reported State() is compared with the state the history implies after every event (no full window: Probing; full window with too few successes: Blocked; else Allowed), and the read-only expectations of the swarm-level part are computed from that history-derived state, not from the counter's own answer.")
+
+CLAIMS["C05"]["text"] += (" Two cases in seven run a swarm that lacks the TCP or the QUIC transport: addresses of the missing transport cannot be dialled (never handed to a transport), and a ws / webtransport address on the ip:port of such an address is then not shadowed and must be attempted.")
